@@ -7,7 +7,7 @@ import ast
 from ..core import astutil as A
 from ..core.index import AnalysisError
 from ..selftest import M
-from .common import (BASE_COMPILER, may_conds, T, attr_stores, calls_named, conds, entails, every_origin, facts, has_fact, key,
+from .common import (BASE_COMPILER, may_conds, is_early_exit_guard, subscript_stores, T, attr_stores, calls_named, conds, entails, every_origin, facts, has_fact, key,
                      need, where)
 
 PRE = "ufo2ft.preProcessor"
@@ -24,6 +24,7 @@ def run(prog, chk):
         "argument beats lib: every assignment of the compiler's skipExportGlyphs from a UFO / designspace lib is guarded by 'is None' (R13.3)",
         "kerning groups are intersected with the (filtered) glyph set and every recorded pair has each side either a known group or a glyph of the glyph set; GDEF classes are restricted to the ordered glyph set; writers take the glyph set from the compiler (R13.4)",
         "the kern writers' mark filtering set only lists exported glyphs, and the IgnoreMarks / filtering-set decision is made on the members of that set (R13.7)",
+        "an instance generated from a designspace ends up with the designspace's skip list: nothing rewrites the instance's lib after it is stored (R13.8)",
     ]
     chk.not_decided += ["that the remaining glyphs render identically (decomposition arithmetic is fontTools')"]
     chk.guard(r131, prog, chk)
@@ -34,6 +35,7 @@ def run(prog, chk):
     from .c15 import check_single_decomposer
     chk.guard(check_single_decomposer, prog, chk, "R13.6")
     chk.guard(r137, prog, chk)
+    chk.guard(r138, prog, chk)
 
 
 # ----------------------------------------------------------------------------- R13.1
@@ -601,7 +603,34 @@ def r137(prog, chk):
     chk.minimum("R13.7", 4)
 
 
+
+# ----------------------------------------------------------------------------- R13.8
+def r138(prog, chk):
+    """An instance generated from a designspace carries the designspace's skip list, and nothing written afterwards can replace
+    it with the default master's own lib key: the store of public.skipExportGlyphs into the instance's lib comes from the
+    instantiator's designspace-level list and no bulk write of that lib (assignment, update) can follow it."""
+    ix = prog.ix
+    gi = ix.get_method("ufo2ft.instantiator.Instantiator", "generate_instance", own=True)
+    cfg = prog.cfg(gi)
+    st = [(s_, t_, v_) for s_, t_, v_ in subscript_stores(gi) if A.is_const(t_.slice, "public.skipExportGlyphs") and T(t_.value).endswith(".lib")]
+    need(len(st) == 1, f"cannot interpret {gi.short}: store of public.skipExportGlyphs")
+    s0, t0, v0 = st[0]
+    lib = T(t0.value)
+    ok_src = "self.skip_export_glyphs" in T(v0)
+    bulk = [s_ for s_, t_, v_ in attr_stores(gi, "lib") if T(t_) == lib]
+    bulk += [ix.enclosing_stmt(c) for c in A.body_nodes(gi.node) if isinstance(c, ast.Call) and isinstance(c.func, ast.Attribute) and c.func.attr in ("update", "clear", "__ior__") and T(c.func.value) == lib]
+    bulk += [s_ for s_ in A.stmts_of(gi.node) if isinstance(s_, ast.AugAssign) and T(s_.target) == lib]
+    later = [b for b in bulk if cfg.exists_path(cfg.node_of(s0), [cfg.node_of(b)])]
+    chk.ob("R13.8", key(gi, "the designspace's skip list is the last word in the instance's lib"), ok_src and not later and not [g for g in may_conds(prog, gi, s0) if g.kind in ("if", "boolop") and not is_early_exit_guard(prog, gi, g)], where(gi, s0),
+           detail=f"{T(s0, 70)}; bulk writes of {lib} afterwards: {len(later)}",
+           message=f"{gi.short}: the designspace-level public.skipExportGlyphs is not what the instance ends up with (it is not taken from the instantiator's list, is conditional, or "
+                   f"`{T(later[0], 50) if later else ''}` rewrites the lib afterwards): the default master's own key decides which glyphs the instance exports")
+    chk.minimum("R13.8", 1)
+
+
 MUTANTS = [
+    M("default master's lib copied over the designspace's skip list (seeded C13g)", "ufo2ft/instantiator.py", "Instantiator.generate_instance",
+      "font.lib['designspace.location'] = [loc for loc in location.items()]", "font.lib['designspace.location'] = [loc for loc in location.items()]\nfont.lib.update(copy.deepcopy(self.copy_lib))", rule="R13.8"),
     M("sparse-layer UFOs do not contribute to the skip list (seeded C13f)", "ufo2ft/_compilers/baseCompiler.py", "BaseCompiler.preprocess",
       "self.skipExportGlyphs.update(ufo.lib.get('public.skipExportGlyphs', []))", "if ufo.layers.defaultLayer is not None and len(ufo) > 0:\n    self.skipExportGlyphs.update(ufo.lib.get('public.skipExportGlyphs', []))", rule="R13.3"),
     M("scripts guessed from skipped glyphs too (mutation scan k=246)", "ufo2ft/featureWriters/baseFeatureWriter.py", "BaseFeatureWriter.guessFontScripts",
